@@ -28,3 +28,13 @@ Definition stem_case := (N * list N * N)%type.
 Definition stem_agree (c : stem_case) : bool :=
   let '(gid, s, back) := c in
   list_eqb N.eqb (gid_stem gid) s && opt_eqb N.eqb (stem_gid s) (Some back).
+
+(* write_glyphmap_for_glyph_svgs: (files as (number, is_png) in argument order, rows the module
+   printed as (number, has bitmap), or None when it stopped with an error) *)
+From Verif Require Import Model.GlyphmapPairs.
+Definition gm_case := (list (nat * bool) * option (list (nat * bool)))%type.
+Definition gm_agree (c : gm_case) : bool :=
+  let '(files, out) := c in
+  let fs := map (fun f : nat * bool => (fst f, if snd f then KPng else KSvg)) files in
+  opt_eqb (list_eqb (fun a b : nat * bool => Nat.eqb (fst a) (fst b) && Bool.eqb (snd a) (snd b)))
+          (glyphmap_rows fs) out.
